@@ -1,6 +1,7 @@
+import os
 import json, re
 import sympy as sp
-d = json.load(open('su2.json'))
+d = json.load(open(os.path.join(os.environ.get('C10_SCRATCH', '/tmp/C10-scratch'), 'su2.json')))
 def L(s):
     s = s.replace('**', '^')
     s = re.sub(r'\bKi\b', 'K.i', s); s = re.sub(r'\bKh\b', 'K.h', s)
